@@ -861,6 +861,9 @@ func (c *Ctx) evalCall(e *Expr) Val {
 		return scalar(sel(arr, x.T), SInt, types.Typ[types.Int])
 	case "emptystrintmap": // Str -> Int ghost array, all zero
 		return scalar("((as const (Array Str Int)) 0)", "(Array Str Int)", nil)
+	case "anyrvmap": // Int -> reflect.Value ghost array with unconstrained initial contents
+		fe.globalDecl("rvmap!0", "(declare-const rvmap!0 (Array Int RV))")
+		return scalar("rvmap!0", "(Array Int RV)", nil)
 	case "emptyintmap": // Int -> Int ghost array, all zero
 		return scalar("((as const (Array Int Int)) 0)", "(Array Int Int)", nil)
 	case "store":
